@@ -18,6 +18,7 @@ import LW.Driver.C12
 import LW.Driver.C14
 import LW.Driver.C06
 import LW.Driver.C11
+import LW.Driver.PostSel
 
 open Lean LW.Driver
 
@@ -37,7 +38,8 @@ def handlers : List (String × (Json → R Json)) :=
    ("qconv", handleC12),
    ("reck", LW.Driver.C14.handleC14),
    ("c06", handleC06),
-   ("cache", LW.Driver.C11.handleC11)]
+   ("cache", LW.Driver.C11.handleC11),
+   ("postsel", handlePostSel)]
 
 def dispatch (req : Json) : R Json := do
   let op ← asStr (← fld req "op")
